@@ -30,8 +30,7 @@ import json
 for l in open('/verif/properties.jsonl'):
     p=json.loads(l)
     if p['id']=='$id': print(' '.join('/repo/'+f for f in p['anchors']['files'] if f.endswith('.rs')))")
-    $BIN/llvm-cov show $T/release/vdrv -instr-profile=$P/$id.profdata --show-line-counts-or-regions=false -Xdemangler=rustfilt $files 2>/dev/null > $O/$id.cov.txt \
-      || $BIN/llvm-cov show $T/release/vdrv -instr-profile=$P/$id.profdata $files > $O/$id.cov.txt
+    $BIN/llvm-cov show $T/release/vdrv -object $T/release/vsrv -instr-profile=$P/$id.profdata $files > $O/$id.cov.txt
     python3 /verif/tools/coverage_gaps.py $O/$id.cov.txt > $O/$id.gaps.txt
     echo "$id: $(tail -1 $O/$id.gaps.txt)   -> $O/$id.gaps.txt"
   done
@@ -45,7 +44,7 @@ fs=set()
 for l in open('/verif/properties.jsonl'):
     fs.update('/repo/'+f for f in json.loads(l)['anchors']['files'] if f.endswith('.rs'))
 print(' '.join(sorted(fs)))")
-  $BIN/llvm-cov show $T/release/vdrv -instr-profile=$P/ALL.merged $files > $O/ALL.cov.txt
+  $BIN/llvm-cov show $T/release/vdrv -object $T/release/vsrv -instr-profile=$P/ALL.merged $files > $O/ALL.cov.txt
   python3 /verif/tools/coverage_gaps.py $O/ALL.cov.txt > $O/ALL.gaps.txt
   tail -1 $O/ALL.gaps.txt; grep "^==" $O/ALL.gaps.txt
   ;;
